@@ -7,7 +7,7 @@ FAMILY = "run"
 
 MANIFEST = {
  "level": "other",
- "text": "Proved for every program, environment, budget and pair of flag sets F <= F' (F' adds restriction flags NO_UNKNOWN_OPS, CANONICAL_INTS, DISABLE_OP, LIMIT_SOFTFORK, LIMITS, LIMIT_HEAP and/or drops RELAXED_BLS) about the Gallina model of run_program.rs + ChiaDialect: a run that succeeds under F' succeeds under F with the same result and cost - outside one recorded class (finding F8: CANONICAL_INTS added without NO_UNKNOWN_OPS turns a non-canonical softfork extension argument into an 'unknown extension', which is skipped instead of entered; C07_refuted exhibits it). MEMPOOL_MODE => consensus is the corollary C07_mempool. LIMIT_HEAP acts only through the allocator's heap limit, which the tree-store model does not have: that flag is covered by the implementation search only. The model is run against the implementation on (F, F') pairs; the search compares the pairs on the implementation itself.",
+ "text": "Proved for every program, environment, budget and pair of flag sets F <= F' (F' adds restriction flags NO_UNKNOWN_OPS, CANONICAL_INTS, DISABLE_OP, LIMIT_SOFTFORK, LIMITS, LIMIT_HEAP and/or drops RELAXED_BLS) about the Gallina model of run_program.rs + ChiaDialect: a run that succeeds under F' succeeds under F with the same result and cost - outside one recorded class (finding F8: CANONICAL_INTS added without NO_UNKNOWN_OPS turns a non-canonical softfork extension argument into an 'unknown extension', which is skipped instead of entered; C07_refuted exhibits it). MEMPOOL_MODE => consensus is the corollary C07_mempool. LIMIT_HEAP acts only through the allocator's heap limit (the core ignores the flag; the wheel builds a limited allocator), which the tree-store model does not have: on the allocator models a lower heap limit only removes successes (C13_limit_monotone: a history without OutOfMemory under limit L has the same observations, counts and node contents under every L' >= L); the composition with the interpreter model is not proved and that flag is otherwise covered by the implementation search. The model is run against the implementation on (F, F') pairs; the search compares the pairs on the implementation itself.",
  "note": vlib.NOTE_COMMON + " Level 'other' because of the excluded class (a known finding) and because LIMIT_HEAP is outside the model.",
  "technique": "Coq proof (lock-step simulation of the runs under two flag sets; per-operator restriction contracts) + model/implementation differential run + implementation search over (F, F u R) pairs",
 }
